@@ -53,6 +53,10 @@ class Outcome(object):
     pass
 
 
+class SetupNotReady(Exception):
+    """The scenario's (conforming) handshake did not give Ready."""
+
+
 _RUNS = [0]
 
 
@@ -118,7 +122,9 @@ def run_schedule(scn_def, schedule, keep_log=False):
             if ev.name == "ready":
                 break
             if ev.name in ("connect_fail", "disconnected"):
-                raise boot.HarnessError("set-up did not reach Ready: %s" % names)
+                # (on a tree where the handshake of this scenario is refused that is some other property's violation:
+                # the scheduled properties have nothing to say about it)
+                raise SetupNotReady("set-up did not reach Ready: %s" % names)
         import _thread
         if isinstance(ws.session._lock, _thread.LockType):
             # a real lock (created before the scheduler was active) would block the whole process; whatever ELSE the
